@@ -313,7 +313,7 @@ func TestC11(t *testing.T) {
 		}
 	}
 	timers := [][2]int64{{5000, 5000}, {1000, 30000}, {30000, 1000}, {100, 100}}
-	maxLen := c.N(3, 4)
+	maxLen := c.N(3, 5)
 	// all fault strings up to maxLen
 	var strs [][]string
 	var rec func(prefix []string)
@@ -338,7 +338,7 @@ func TestC11(t *testing.T) {
 		runCase(t, "strings", i, p, func(t *testing.T) rt.Result { return c11World(t, p) })
 	}
 	// longer random strings (thorough: up to 5 and 6)
-	n := c.N(300, 30000)
+	n := c.N(3000, 120000)
 	for i := 0; i < n; i++ {
 		if !c.Mine("long", i) {
 			continue
